@@ -23,6 +23,10 @@ CORPUS = [
         '<dataset><header><attributes><attribute name="a" type="numeric"/><attribute name="b" type="numeric"/>'
         '</attributes></header><body><instances><instance><value>1</value></instance></instances></body></dataset>')),
     ("csv", cc.csv_line("a,b\n1,2\n3,4,5,6,7,8,9\n", 44, 1, False, 1)),
+    ("csv", cc.csv_line("1,2\n3,4\n", 44, 0, False, 2 ** 64 - 1)),       # params().output(SIZE_MAX): a caller passing -1
+    ("csv", cc.csv_line("1,2\n3,4\n", 44, 0, False, 2 ** 64 - 2)),
+    ("csv", cc.csv_line("1,2\n3,4\n", 44, 1, True, 2 ** 32 - 1)),
+    ("csv", cc.csv_line("1,2\n3,4\n", 0, -1, False, 2)),
     ("csv", cc.csv_line("", 44, 0, False, 0)),
     ("csv", cc.csv_line("\n\n  \n", 0, -1, False, 0)),
     ("csv", cc.csv_line('1,"2\n3,4\n', 44, 0, False, 0)),
@@ -69,7 +73,9 @@ def malformed_csv(rng):
         txt = txt[:k] + "".join(chr(rng.randint(0, 255)) for _ in range(rng.randint(1, 4))) + txt[k:]
     delim = rng.choice([d, d, 0, rng.choice(cc.DELIMS)])
     hdr = rng.choice([-1, 0, 1])
-    out = rng.choice([-1, 0, 0, 1, 2, 3, 5, 9])
+    out = rng.choice([-1, 0, 0, 1, 2, 3, 5, 9, base - 1, base, base + 1,
+                      2 ** 31 - 1, 2 ** 31, 2 ** 32 - 1, 2 ** 32, 2 ** 63, 2 ** 64 - 2, 2 ** 64 - 1, 2 ** 64 - 1])
+    out = max(out, -1)
     flt = rng.choice(["N", "N", "N", "D:0", "D:%d" % rng.randint(0, 3), "E:%d:%s" % (rng.randint(0, 2), cc.hx(rand_cell(rng)))])
     return cc.csv_line(txt, delim, hdr, rng.random() < 0.3, None if out < 0 else out, flt)
 
@@ -104,6 +110,177 @@ def malformed_xrff(rng):
     return "xrff fixed %s %s" % (cc.hx(xml), flt)
 
 
+def long_xml(rng):
+    """malformed XML whose error site carries a LONG token (1 KiB - 64 KiB): tinyxml2 formats the offending name /
+    text into its error message"""
+    n = rng.choice([900, 1000, 1024, 1500, 3000, 4096, 10000, 65536])
+    name = "".join(rng.choice("abcdefghijklmnopqrstuvwxyz") for _ in range(16)) * (n // 16 + 1)
+    name = name[:n]
+    head = "<dataset><header><attributes>"
+    kind = rng.randrange(12)
+    if kind == 0:
+        return "<%s></x>" % name                                         # mismatched end tag
+    if kind == 1:
+        return "<dataset><%s></dataset>" % name                          # mismatched, nested
+    if kind == 2:
+        return "<dataset><%s" % name                                     # unterminated tag
+    if kind == 3:
+        return '<dataset %s=></dataset>' % name                          # bad attribute
+    if kind == 4:
+        return '<dataset a="%s></dataset>' % name                        # unterminated attribute value
+    if kind == 5:
+        return "%s<dataset/>" % name                                     # text where an element is expected
+    if kind == 6:
+        return "<dataset><?xml %s?></dataset>" % name                    # declaration in the wrong place
+    if kind == 7:
+        return "<dataset><!-- %s </dataset>" % name                      # unterminated comment
+    if kind == 8:
+        return "<dataset><![CDATA[%s</dataset>" % name                   # unterminated CDATA
+    if kind == 9:
+        return head + '<attribute name="%s" type="numeric"/></attributes></header><body><instances><instance><value>%s' % (name, name)
+    if kind == 10:
+        return head + '<attribute name="a" type="%s"/><%s></attributes></header>' % (name, name)
+    return "<%s><%s></%s></%s>" % (name, name, name[:-1], name)           # deep mismatch
+
+
+XR_DOCS = [
+    '<dataset><header><attributes><attribute name="a" type="numeric"/><attribute name="b" type="numeric"/></attributes>'
+    '</header><body><instances><instance><value>1</value><value>2</value></instance><instance><value>3</value><value>4</value>'
+    '</instance></instances></body></dataset>',
+    # EMPTY attribute list with instances: on a frame that already has columns output_index = 0u - 1
+    '<dataset><header><attributes></attributes></header><body><instances><instance><value>1</value><value>2</value></instance>'
+    '<instance><value>3</value></instance></instances></body></dataset>',
+    '<dataset><header><attributes/></header><body><instances><instance><value>1</value><value>2</value><value>3</value>'
+    '</instance></instances></body></dataset>',
+    '<dataset><header><attributes><attribute name="c" type="nominal" class="yes"/></attributes></header><body><instances>'
+    '<instance><value>u</value><value>1</value><value>2</value></instance><instance><value>v</value><value>3</value><value>4</value>'
+    '</instance></instances></body></dataset>',
+    '<dataset><header><attributes><attribute name="z" type="string"/></attributes></header><body><instances><instance>'
+    '<value>q</value></instance></instances></body></dataset>',
+    '<dataset><header><attributes></attributes></header><body><instances></instances></body></dataset>',
+    '<dataset><header></header></dataset>',
+]
+CSV_DOCS = ["1,2\n3,4\n", "1,2,3\n4,5,6\n7,8,9\n", "a,b\n1,2\n3,4\n", "x,1\ny,2\nx,3\n", "1\n2\n", "", "1,2\n3\n4,5,6\n"]
+
+
+def gen_hist_cases(ck):
+    """several reads on ONE dataframe object (clear() keeps columns and classes): csv then xrff, xrff twice, with empty /
+    short attribute lists, extreme output indices"""
+    rng = ck.rng
+    n = 6 if ck.thorough else 1
+    cases = []
+
+    def step_csv():
+        txt = rng.choice(CSV_DOCS)
+        out = rng.choice([-1, 0, 0, 1, 2, 3, 2 ** 32 - 1, 2 ** 64 - 1])
+        return "c/%s/%d/%d/%d/%d" % (cc.hx(txt), 44, rng.choice([0, 0, 1, -1]), rng.randint(0, 1), out)
+
+    def step_xrff():
+        if rng.random() < 0.25:
+            return "x/%s" % malformed_xrff(rng).split(" ")[2]
+        return "x/%s" % cc.hx(rng.choice(XR_DOCS))
+    fixed = [["x/%s" % cc.hx(XR_DOCS[0]), "x/%s" % cc.hx(XR_DOCS[1])],
+             ["c/%s/44/0/0/0" % cc.hx(CSV_DOCS[0]), "x/%s" % cc.hx(XR_DOCS[1])],
+             ["x/%s" % cc.hx(XR_DOCS[3]), "x/%s" % cc.hx(XR_DOCS[2])],
+             ["x/%s" % cc.hx(XR_DOCS[0]), "x/%s" % cc.hx(XR_DOCS[0])],
+             ["c/%s/44/0/0/0" % cc.hx(CSV_DOCS[1]), "c/%s/44/0/0/1" % cc.hx(CSV_DOCS[0])],
+             ["x/%s" % cc.hx(XR_DOCS[0]), "c/%s/44/0/0/0" % cc.hx(CSV_DOCS[0]), "x/%s" % cc.hx(XR_DOCS[5])]]
+    for st in fixed:
+        cases.append({"mode": "hist", "line": "hist fixed %d %s" % (len(st), " ".join(st))})
+    for _ in range(200 * n):
+        st = [rng.choice([step_csv, step_xrff])() for _ in range(rng.randint(2, 4))]
+        cases.append({"mode": "hist", "line": "hist fixed %d %s" % (len(st), " ".join(st))})
+    return cases
+
+
+def hist_model_line(line, ho):
+    """x steps of the model take the DOM the harness dumped for that step"""
+    w = line.split(" ")
+    doms = []
+    for t in (ho or "").split(" "):
+        if t.startswith("DOMS="):
+            doms = cc.items(t[5:], "!")
+    out, k = [], 0
+    for st in w[3:]:
+        if st.startswith("x/"):
+            if k < len(doms):
+                a, i = doms[k].split("|")
+                out.append("x/%s/%s" % (a, i))
+            else:
+                out.append("x/ERR/ERR")
+            k += 1
+        else:
+            out.append(st)
+    return " ".join(w[:3] + out)
+
+
+def hist_outcomes(o):
+    for t in (o or "").split(" "):
+        if t.startswith("S="):
+            return cc.items(t[2:], ",")
+    return None
+
+
+def run_hist_batch(ck, harness, model):
+    if ck.replay_path:
+        rp = json.load(open(ck.replay_path))
+        if rp.get("mode") != "hist":
+            return
+        cases = [{"mode": "hist", "line": rp["line"]}]
+    else:
+        cases = gen_hist_cases(ck)
+    hl = [c["line"] for c in cases]
+    hout, crashes = cc.pc.run_harness_resilient(harness, hl)
+    ml = [hist_model_line(l, o) for l, o in zip(hl, hout)]
+    rc, mout, merr = vv.run_lines(model, "\n".join(ml) + "\n")
+    if rc != 0 or len(mout) != len(ml):
+        raise vv.BuildError("model driver failed: rc=%s %s" % (rc, merr[:500]))
+    hist = {}
+    for k, c in enumerate(cases):
+        ck.count()
+        ck.nontriv(c["line"])
+        ho, mo = hout[k], mout[k]
+        atexit = ho is not None and ho.startswith("CRASH-AT-EXIT ")
+        if atexit:
+            ho = ho[len("CRASH-AT-EXIT "):]
+        steps = c["line"].split(" ")[3:]
+        texts = [cc.unhx(st.split("/")[1]).decode("latin1")[:300] for st in steps]
+        replay = {"mode": "hist", "line": c["line"], "impl": ho, "model": mo, "steps": steps, "step_texts": texts}
+        if ho is None or ho.startswith("CRASH"):
+            ck.add_violation("hist:sanitizer:%s" % crash_site(crashes.get(k, "")),
+                             "undefined behaviour in a sequence of reads on one dataframe object",
+                             dict(replay, sanitizer=crashes.get(k, "")[-2500:]))
+            continue
+        if atexit:
+            ck.add_violation("hist:leak", "the sanitizers report at exit after sequences of reads on one object",
+                             dict(replay, sanitizer=crashes.get(k, "")[-2000:]))
+        so, sm = hist_outcomes(ho), hist_outcomes(mo)
+        hist[" ".join(x.split(":")[0].rstrip("0123456789") for x in (so or []))] = \
+            hist.get(" ".join(x.split(":")[0].rstrip("0123456789") for x in (so or [])), 0) + 1
+        if so is None or sm is None:
+            ck.add_diff({"mode": "hist", "line": c["line"][:400]}, mo[:400], (ho or "")[:400])
+            continue
+        # the model stops at the first read that does not return normally
+        stop = next((i for i, x in enumerate(so) if not x.startswith("ok")), None)
+        cmp_h = so if stop is None else so[:stop + 1]
+        if cmp_h != sm:
+            ck.add_diff({"mode": "hist", "line": c["line"][:400]}, mo[:400], (ho or "")[:400])
+        got = cc.parse_out("OK " + " ".join(t for t in ho.split(" ")[2:] if not t.startswith("DOMS=")))
+        if stop is None:
+            fm = " ".join(t for t in mo.split(" ")[2:])
+            fh = " ".join(t for t in ho.split(" ")[2:] if not t.startswith("DOMS="))
+            if cc.canon("OK " + fh) != cc.canon("OK " + fm):
+                ck.add_diff({"mode": "hist", "line": c["line"][:400]}, mo[:600], (ho or "")[:600], "final frames differ")
+            # outcome oracle on the frame after the last read
+            last = steps[-1][0]
+            n = int(so[-1][2:])
+            got["ret"] = n
+            v = judge("xrff" if last == "x" else "csv", got)
+            if v:
+                ck.add_violation("hist:" + v[0], v[1], replay)
+    ck.coverage["hist_outcomes"] = hist
+
+
 def gen_cases(ck):
     rng = ck.rng
     n = 15 if ck.thorough else 1
@@ -112,6 +289,8 @@ def gen_cases(ck):
         cases.append({"mode": "csv", "line": malformed_csv(rng)})
     for _ in range(500 * n):
         cases.append({"mode": "xrff", "line": malformed_xrff(rng)})
+    for _ in range(40 * n):
+        cases.append({"mode": "xrff", "line": "xrff fixed %s N" % cc.hx(long_xml(rng))})
     for _ in range(250 * n):
         l = malformed_csv(rng).split(" ")
         cases.append({"mode": "prob", "line": "prob fixed %s %d" % (l[2], rng.randint(0, 1))})
@@ -161,6 +340,8 @@ def gen_path_cases(ck, scratch):
     for _ in range(140 * n):
         l = malformed_csv(rng).split(" ")
         texts.append(("csv", rng.choice(["read", "read_csv", "prob"]), cc.unhx(l[2])))
+    for _ in range(24 * n):
+        texts.append((rng.choice(["xrff", "xml"]), rng.choice(["read", "read_xrff"]), long_xml(rng).encode("latin1")))
     cases = []
     for k, (ext, api, data) in enumerate(texts):
         fn = os.path.join(scratch, "f%05d.%s" % (k, ext))
@@ -168,6 +349,11 @@ def gen_path_cases(ck, scratch):
             f.write(data)
         cases.append({"mode": "path", "api": api, "ext": ext, "file": fn, "data": data,
                       "line": "path fixed %s %s" % (api, fn)})
+    # a (very long) name of a file that does not exist: the name ends up in tinyxml2's error message
+    for ln in (20, 200, 3000):
+        fn = os.path.join(scratch, "missing", "m" * ln + ".xrff")
+        cases.append({"mode": "path", "api": "read", "ext": "xrff", "file": fn, "data": b"", "missing": True,
+                      "line": "path fixed read %s" % fn})
     return cases
 
 
@@ -531,6 +717,7 @@ def run(ck):
     ck.coverage["outcomes"] = hist
     ck.coverage["xrff_zero_returns"] = zero_returns
     run_path_batch(ck, harness, model)
+    run_hist_batch(ck, harness, model)
     if ck.thorough and not ck.replay_path:
         run_fuzzer(ck, harness, [c["line"] for c in cases[:600]], 150)
     import os
